@@ -74,8 +74,12 @@ def in_threads(jobs):
     return res
 
 
+MY_SPECS = ["SkylightRoutes.tla", "MC_SkylightRoutes.tla", "MC_skylight_routes.cfg", "SkylightRoutesTrace.tla",
+            "Health.tla", "MC_Health.tla", "MC_health.cfg", "HealthTrace.tla"]
+
+
 def spec_hash():
-    return vlib.hash_tree([vlib.SPEC])
+    return vlib.hash_tree([os.path.join(vlib.SPEC, f) for f in MY_SPECS])
 
 
 def model_and_plan(name, spec, cfg, wd, use_cache):
@@ -279,7 +283,8 @@ def run_routes(tier):
                                     "tlc_states": tstates, "tlc_transitions": ttrans, "shards": len(shards)},
                "violated_formulas": per_formula, "harness_errors": herr[:20],
                "exhaustive": tier == "thorough" and not only_cases()}
-        vlib.write_evidence(prop, tier, "model_checking", cov, time.time() - t0, len(violations), ROUTES_ASSUME)
+        if not only_cases():  # a replay does not overwrite the evidence of the last full run
+            vlib.write_evidence(prop, tier, "model_checking", cov, time.time() - t0, len(violations), ROUTES_ASSUME)
         inconclusive = None
         if herr or nerr:
             inconclusive = "%d harness error(s): %s" % (len(herr) + nerr, (herr or ["request errors"])[0])
@@ -361,7 +366,8 @@ def run_health(tier):
                                     "answers_differing_from_model_of_code": diverged},
                "violated_formulas": per_formula, "harness_errors": herr[:20],
                "exhaustive": len(answered) == nplan}
-        vlib.write_evidence(prop, tier, "model_checking", cov, time.time() - t0, len(violations), HEALTH_ASSUME)
+        if not only_cases():
+            vlib.write_evidence(prop, tier, "model_checking", cov, time.time() - t0, len(violations), HEALTH_ASSUME)
         inconclusive = None
         if herr or nerr:
             inconclusive = "%d harness error(s): %s" % (len(herr) + nerr, (herr or ["health query errors"])[0])
